@@ -458,6 +458,9 @@ func runC15(r *core.Run) *core.Violation {
 	c := newC15(r)
 	w := c.w
 	steps := 10 + r.Intn(30)
+	if r.Tier == "thorough" && r.Chance(1, 4) {
+		steps *= 3
+	}
 	for i := 0; i < steps; i++ {
 		switch r.Weighted([]int{3, 10, 2}) {
 		case 0:
